@@ -145,7 +145,7 @@ def _after_event_search_edges(ctx, g, via, barrier, goals, prune, edge_ok):
 
 def fault_sources(g: Graph) -> List[Ev]:
     return [ev for ev in g.evs if any(lab == 'exc' for _, lab in g.succ.get(ev.id, ()))
-            and ev.kind in ('raise', 'call', 'await', 'subscr')]
+            and ev.kind in ('raise', 'call', 'await', 'subscr', 'member')]
 
 
 def rule_fault_reaches_run(ctx: Ctx, out: Collector) -> None:
@@ -272,9 +272,17 @@ def rule_launch_loop_error_exit(ctx: Ctx, out: Collector) -> None:
                     D = s[2][1]              # (self, dag, ...)
             if D is None:
                 continue
-            # the dag must be the one this activation runs on behalf of its owner: a parameter
+            # the dag must be the one this activation runs on behalf of its owner: a parameter - or, when the gate is
+            # handed something derived from it (its node order ...), the parameter that value is derived from
             if not _dag_is_parameter(ctx, b, herr):
-                continue
+                derived = None
+                for pname in b.inst.unit.params()[1:]:
+                    pt = sym.term(ctx.p, ast.Name(id=pname, ctx=ast.Load()), b.inst)
+                    if pt != D and sym.mentions(D, lambda s_, pt=pt: s_ == pt) and _has_dest_use(b.inst.unit, pname):
+                        derived = pt
+                if derived is None:
+                    continue
+                D = derived
             # the branch must sit in a launch loop: a loop of the same activation whose body spawns
             loop = _enclosing_spawn_loop(ctx, g, b)
             if loop is None:
@@ -327,6 +335,11 @@ def _dag_is_parameter(ctx: Ctx, b: Ev, herr: set) -> bool:
                             if defs and all(d[0] == 'param' for d in defs):
                                 return True
     return False
+
+
+def _has_dest_use(unit, pname: str) -> bool:
+    return any(isinstance(n, ast.Attribute) and n.attr == 'dest' and isinstance(n.value, ast.Name) and n.value.id == pname
+               for n in ast.walk(unit.node))
 
 
 def ctx_facts(ctx: Ctx, b: Ev, value: bool):
